@@ -1481,7 +1481,8 @@ def _write_graph_kthlist_nonbipartite(G, output_file):
     """
     assert isinstance(G, (Graph, DirectedGraph))
 
-    print("c {}".format(G.name), file=output_file)
+    for line in str(G.name).splitlines() or ['']:
+        print("c {}".format(line), file=output_file)
     print("{}".format(G.order()), file=output_file)
 
     from io import StringIO
@@ -1514,7 +1515,8 @@ def _write_graph_kthlist_bipartite(G, output_file):
         file handle of the output
     """
     assert isinstance(G, BipartiteGraph)
-    print("c {}".format(G.name), file=output_file)
+    for line in str(G.name).splitlines() or ['']:
+        print("c {}".format(line), file=output_file)
     print("{}".format(G.order()), file=output_file)
 
     from io import StringIO
@@ -1544,7 +1546,8 @@ def _write_graph_dimacs_format(G, output_file):
         file handle of the output
     """
     assert isinstance(G, (Graph, DirectedGraph))
-    print("c {}".format(G.name).strip(), file=output_file)
+    for line in str(G.name).splitlines() or ['']:
+        print("c {}".format(line).strip(), file=output_file)
     n = G.number_of_vertices()
     m = G.number_of_edges()
     print("p edge {} {}".format(n, m), file=output_file)
